@@ -1641,6 +1641,25 @@ def _check_sci_reply(run, world, folder, mod, c):
                             t, ast.Name) for t in st.targets[0].elts):
             for (t, v) in zip(st.targets[0].elts, st.value.elts):
                 env_defs.append((t.id, v))
+    # ... and every status byte is passed on: no path of the handler ends
+    # without the put (a reply equal to the one before it is still the
+    # confirmation somebody is waiting for)
+    from .. import paths as _pp
+    try:
+        ps_ = _pp.summaries(fn)
+    except _pp.Unsupported as e_:
+        raise AnalysisError("_process_system_message: %s" % e_)
+    silent_ = [p_ for p_ in ps_ if p_.kind != "raise" and not any(
+        len(e_) == 2 and e_[0] == "expr" and isinstance(
+            e_[1], ast.Call) and unparse(e_[1].func).endswith(
+                "_queue_rx_info.put_nowait") for e_ in p_.effects)]
+    run.ob("R-SCI-REPLY", c.qname + "._process_system_message#always-queued",
+           not silent_,
+           "a device reply is dropped when %s: the sender waiting for this "
+           "confirmation gets none" % (" and ".join(
+               ("" if b_ else "not ") + unparse(t_, 50)
+               for (t_, b_) in silent_[0].conds) if silent_ else ""),
+           where(mod, r[2]))
     want = {"id": lambda b: b >> 4, "code": lambda b: b & 0xF}
     for fld in ("id", "code"):
         e = args.get(fld)
